@@ -13,6 +13,10 @@ Four case kinds (case['kind']):
            steps and plans, QueryPlan(steps) == QueryPlan(deep-copied steps) is True, equality ignores set_result(),
            every reachable Result hashes and equal Results hash equal.
   result : Result placeholders over ints / sub-step strings: hash works, a == b => hash(a) == hash(b), laws above.
+  twin   : ONE statement planned under several catalogs that differ only in what the models are (plain / time series without or
+           with group-by columns / other window, horizon, order column): the plans, every step of one plan with every step of
+           the other (nested steps included) and one-step plans of them go through the laws, so steps of different classes --
+           also a class and its subclass -- whose common attributes agree meet under == (equal => same class and same print).
 
 "prints the same" for steps, plans and TableColumns is judged on sql_image(): the str() of every tree they hold and the repr() of
 every plain value and dict key, in order; a failure is tagged with the owner attribute of the first difference (at:Class.attr) and
@@ -22,7 +26,7 @@ import copy, re
 from hypothesis import strategies as st
 
 from vf import findings, hyp
-from vf.gens import corpus, grammar, mutate
+from vf.gens import corpus, grammar, mutate, c18_shapes
 from vf.oracles.struct import struct, diff, walk, _is_node
 from vf.props.c02 import site_of
 
@@ -34,7 +38,10 @@ RULE = ('tree cases = (dialect, accepted text, copy()|deepcopy, <= 10 drawn in-p
         'law shapes (law_cases): pairs of texts that differ only in the white space inside one quoted name / string (templates per '
         'node class + one quoted position of every corpus statement), all pairs of CREATE TABLE column definitions, all pairs of '
         'spellings of a plain value kept by predictor steps (1 / 1.0 / TRUE ...) and reordered conditions / parameters, names '
-        'written as quoted strings of dots at every string position, 300-400 operator chains.  '
+        'written as quoted strings of dots at every string position, 300-400 operator chains, odd name parts (a quoted part whose '
+        'text is special somewhere: * . ` keyword digits blank ...) at every position of 1..3-part names x places of a statement '
+        'and at the names after a dot of the corpus statements, twin plans (one statement of a join/read-a-model family or of the '
+        'corpus x catalogs that differ in what the models are, steps compared across the plans).  '
         'non-trivial = tree case whose copy has >= 3 mutable objects and >= 1 mutation hit a nested (non-root) object; pair '
         'case with >= 4 compared objects; plan case that planned with >= 1 step; distinct by the whole case')
 ASSUMPTIONS = ['"no shared mutable" = the id() sets of library objects, lists, dicts and sets reachable from the original and from '
@@ -45,12 +52,16 @@ FLOORS = {'quick': {'__nontrivial__': 3000, 'kind:tree': 2000, 'kind:pair': 350,
                     'mutation-steps': 12000, 'reached-nested': 2000, 'has:star-part': 500, 'pair:equal': 2000, 'pair:unequal': 14000,
                     'plan:steps>=2': 110, 'results-hashed': 1200, 'step-pairs': 1600, 'variant-planned': 90, 'mut:dict-set-new': 60,
                     'mut:parts-item': 500, 'mut:alias': 1200, 'mut:flip-parentheses': 1500, 'mut:list-pop': 500, 'mut:set-field': 4000,
-                    'relation:ws-variant': 400, 'relation:column-def': 70, 'origin:dotname': 350},
+                    'relation:ws-variant': 400, 'relation:column-def': 70, 'origin:dotname': 350, 'origin:oddpart': 1, 'has:str-star-last': 1,
+                    'kind:twin': 1, 'twin:sub-vs-base': 1, 'twin:sub-vs-base-agree': 1, 'twin:same-class-equal': 1,
+                    'twin:shapes>=2': 1, 'result-pairs': 1},
           'thorough': {'__nontrivial__': 9000, 'kind:tree': 6000, 'kind:pair': 1000, 'kind:plan': 1600, 'planned': 1600,
                        'mutation-steps': 36000, 'reached-nested': 6000, 'has:star-part': 1500, 'pair:equal': 6000, 'pair:unequal': 42000,
                        'plan:steps>=2': 330, 'results-hashed': 3600, 'step-pairs': 4800, 'variant-planned': 270, 'mut:dict-set-new': 180,
                        'mut:parts-item': 1500, 'mut:alias': 3600, 'mut:flip-parentheses': 4500, 'mut:list-pop': 1500,
-                       'mut:set-field': 12000, 'relation:ws-variant': 1200, 'relation:column-def': 70, 'origin:dotname': 350}}
+                       'mut:set-field': 12000, 'relation:ws-variant': 1200, 'relation:column-def': 70, 'origin:dotname': 350,
+                       'origin:oddpart': 1, 'has:str-star-last': 1, 'kind:twin': 1, 'twin:sub-vs-base': 1,
+                       'twin:sub-vs-base-agree': 1, 'twin:same-class-equal': 1, 'twin:shapes>=2': 1, 'result-pairs': 1}}
 N = {'quick': 700, 'thorough': 8000}
 
 _LEX = {}
@@ -58,6 +69,8 @@ _SPANS = {}
 _QSPANS = {}            # the statements of _SPANS that have a name or a quoted string
 _PLANNABLE = []          # [(dialect, sql, catalog)]
 _PLAN_SPANS = {}         # (dialect, sql) -> [(type, src)]
+_DOTSPANS = {}           # dialect -> [(spans, [positions of a name token that follows a dot])]
+_MODEL_PLANNABLE = []    # the (dialect, sql, catalog) of _PLANNABLE whose plan applies a model
 
 STAR_SHAPES = ['select t.* from t', 'select a.b.* from a.b', 'select t.*, u.* from t join u on t.a = u.a', 'select count(t.*) from t',
                'select * from t', 'select t.* from t as t where t.a = 1', 'select x.* from (select t.* from t) as x',
@@ -169,6 +182,7 @@ def prepare(tier):
                 sp.append([(y[0], y[1]) for y in spans])
         _SPANS[d] = sp
         _QSPANS[d] = [x for x in sp if any(ty in QUOTED for ty, _ in x)]
+        _DOTSPANS[d] = [(x, ps) for x in sp for ps in [after_dot_positions(x)] if ps]
     # statements of the corpus that plan over the fixed catalog
     seen = set()
     for x in corpus.accepted():
@@ -183,9 +197,21 @@ def prepare(tier):
                 continue
             if p.steps:
                 _PLANNABLE.append((x['dialect'], x['sql'], cat))
+                if cat != 'int' and any(clsname(n).startswith('Apply') for n in all_steps(p)):
+                    _MODEL_PLANNABLE.append((x['dialect'], x['sql'], cat))
                 if (x['dialect'], x['sql']) not in _PLAN_SPANS:
                     spans = mutate.lex_spans(_LEX[x['dialect']], re.sub(r'[\s;]+$', '', x['sql']))
                     _PLAN_SPANS[(x['dialect'], x['sql'])] = [(y[0], y[1]) for y in spans] if spans else None
+
+
+def after_dot_positions(spans):
+    return [i for i, (ty, _) in enumerate(spans) if ty == 'ID' and i > 0 and spans[i - 1][0] == 'DOT']
+
+
+def all_steps(o):
+    """The steps of a plan (or below a step), nested ones (MapReduceStep.step, MultipleSteps.steps) included, in walk order."""
+    from mindsdb_sql.planner.steps import PlanStep
+    return [n for n in walk(o) if isinstance(n, PlanStep)]
 
 
 # ---- identity graph -------------------------------------------------------------------------------------------------
@@ -371,7 +397,9 @@ def image_diff_features(ix, rx, iy, ry):
         return ['differs:length']
     (pa, ta, xa), (pb, tb, xb) = ix[i], iy[i]
     feats = [] if pa == 'tree' else ['at:' + pa]
-    if ta == tb == 'sql' and ' '.join(xa.split()) == ' '.join(xb.split()):
+    if ta == tb == 'obj' and xa != xb:
+        feats.append('differs:class')
+    elif ta == tb == 'sql' and ' '.join(xa.split()) == ' '.join(xb.split()):
         feats.append('differs:whitespace-only')
     elif ta == tb == 'key' and sorted(ix) == sorted(iy):
         feats.append('differs:dict-order')
@@ -504,6 +532,8 @@ def judge(case, col):
             return judge_plan(case, col)
         if k == 'result':
             return judge_result(case, col)
+        if k == 'twin':
+            return judge_twin(case, col)
     except RecursionError:
         col.excluded('recursion')
         return []
@@ -569,6 +599,11 @@ def judge_tree(case, col):
     has_star_part = any(clsname(o) == 'Star' and lab.startswith('Identifier.parts') for o, lab in mt.values())
     if has_star_part:
         classes.append('has:star-part')
+    # a name of several parts whose LAST part is the string '*' (a quoted name, not the star)
+    if any(clsname(o) == 'Identifier' and len(o.parts) > 1 and isinstance(o.parts[-1], str) and o.parts[-1] == '*' for o, _ in mt.values()):
+        classes.append('has:str-star-last')
+    if case.get('form'):
+        classes.append('oddpart-form:' + case['form'])
     nested = 0
     steps = 0
     for (oi, pi, vi) in muts:
@@ -758,6 +793,13 @@ def judge_plan(case, col):
     rs = results_in(P1) + [s.result for s in P1.steps]
     for r in rs:
         judge_one_result(L, r)
+    # the placeholders of one plan pairwise (equal => same print: Result(1) / Result(True) / Result(1.0) would be a violation)
+    n_rpairs = 0
+    for i, x in enumerate(rs[:8]):
+        for y in rs[i + 1:8]:
+            L.pair(x, y, 'Results of one plan: ')
+            n_rpairs += 1
+    col.cls(*['result-pairs'] * n_rpairs)
     col.cls(*['results-hashed'] * len(rs))
     col.cls(*['step-pairs'] * n_pairs)
     col.cls(*['pair:equal'] * L.n_equal)
@@ -765,6 +807,88 @@ def judge_plan(case, col):
     col.case(('plan', d, ' '.join(sql.split()), cat, case.get('sql2')), True, classes,
              {'kind': 'plan', 'dialect': d, 'sql': sql, 'catalog': cat, 'steps': [clsname(s) for s in P1.steps]})
     return L.out
+
+
+def world_plan(tree, world, catalog):
+    from mindsdb_sql.planner import plan_query
+    kw = {}
+    if catalog != 'none':
+        kw['default_namespace'] = catalog
+    preds = predictors() if world == 'base' else c18_shapes.world_predictors(world)
+    return plan_query(tree, integrations=list(INTEGRATIONS), predictor_metadata=preds, **kw)
+
+
+def attr_images(step):
+    """attribute -> printed image, for one step (result_data is not part of a step's value)."""
+    return {k: sql_image(v) for k, v in vars(step).items() if k != 'result_data'}
+
+
+def judge_twin(case, col):
+    """One statement, several catalogs: equality laws between the plans and between all steps of different plans."""
+    from mindsdb_sql.planner.query_plan import QueryPlan
+    d, sql, cat, worlds = case['dialect'], case['sql'], case['catalog'], case['worlds']
+    plans = []
+    for w in worlds:
+        T = parse_or_none(col, d, sql, 'twin', count=not plans)
+        if T is None:
+            return []
+        try:
+            P = world_plan(T, w, cat)
+        except RecursionError:
+            raise
+        except Exception:
+            continue
+        if P.steps:
+            plans.append((w, P))
+    if len(plans) < 2:
+        col.case(('twin', d, sql, cat, tuple(worlds), 'unplannable'), False, ['kind:twin', 'twin:fewer-than-2-plans'])
+        return []
+    classes = ['kind:twin', 'catalog:' + cat, 'twin:plans=' + str(len(plans)), 'origin:' + case.get('origin', '?')]
+    shapes = {tuple(clsname(s) for s in all_steps(P)) for _, P in plans}
+    if len(shapes) >= 2:
+        classes.append('twin:shapes>=2')
+    out = []
+    n_pairs = n_equal = n_unequal = 0
+    for i, (wa, Pa) in enumerate(plans):
+        for wb, Pb in plans[i + 1:]:
+            L = Laws({'catalog': cat, 'worlds': wa + '~' + wb}, sql)
+            L.pair(Pa, Pb, 'plans of one statement under two catalogs: ')
+            sa, sb = all_steps(Pa), all_steps(Pb)
+            for x in sa:
+                ix = None
+                for y in sb:
+                    n_pairs += 1
+                    r = L.pair(x, y, 'steps of one statement under two catalogs: ')
+                    tx, ty = type(x), type(y)
+                    if tx is ty:
+                        if r:
+                            classes.append('twin:same-class-equal')
+                        continue
+                    if not (issubclass(tx, ty) or issubclass(ty, tx)):
+                        continue
+                    # a class and its subclass: do the attributes of the base agree?  (independent of the library's ==)
+                    base, sub = (x, y) if issubclass(ty, tx) else (y, x)
+                    classes.append('twin:sub-vs-base')
+                    ib, isub = attr_images(base), attr_images(sub)
+                    if all(k in isub and isub[k] == v for k, v in ib.items()):
+                        classes.append('twin:sub-vs-base-agree')
+                        classes.append(f'twin:agree:{clsname(base)}~{clsname(sub)}')
+                    # the same two steps as one-step plans and inside lists
+                    try:
+                        qa, qb = QueryPlan(steps=[copy.deepcopy(x)]), QueryPlan(steps=[copy.deepcopy(y)])
+                    except Exception:
+                        continue
+                    L.pair(qa, qb, 'one-step plans of steps of two catalogs: ')
+            n_equal += L.n_equal
+            n_unequal += L.n_unequal
+            out.extend(L.out)
+    col.cls(*['step-pairs'] * n_pairs)
+    col.cls(*['pair:equal'] * n_equal)
+    col.cls(*['pair:unequal'] * n_unequal)
+    col.case(('twin', d, ' '.join(sql.split()), cat, tuple(worlds)), True, classes,
+             {'kind': 'twin', 'dialect': d, 'sql': sql, 'catalog': cat, 'worlds': [w for w, _ in plans],
+              'steps': [[clsname(s) for s in P.steps] for _, P in plans]})
+    return out
 
 
 def judge_one_result(L, r):
@@ -872,7 +996,22 @@ def fill_ws(t, fill):
 
 @st.composite
 def cases(draw):
-    kind = draw(st.sampled_from(['tree', 'tree', 'tree', 'pair', 'pair', 'plan', 'plan']))
+    kind = draw(st.sampled_from(['tree', 'tree', 'tree', 'pair', 'pair', 'plan', 'plan', 'tree', 'tree', 'tree', 'pair', 'pair', 'plan', 'plan',
+                                 'oddpart', 'twin']))
+    if kind == 'oddpart':
+        # a name that follows a dot in a corpus statement replaced by a quoted odd part (`*`, `.`, a keyword ...)
+        d = draw(st.sampled_from(corpus.DIALECTS))
+        spans, pos = draw(st.sampled_from(_DOTSPANS[d]))
+        toks = [src for _, src in spans]
+        for i in draw(st.lists(st.sampled_from(pos), min_size=1, max_size=2, unique=True)):
+            toks[i] = c18_shapes.quote_part(draw(st.sampled_from(c18_shapes.ODD_PARTS)))
+        return {'kind': 'tree', 'dialect': d, 'sql': ' '.join(toks), 'how': draw(st.sampled_from(['copy', 'deepcopy'])), 'muts': draw(MUT),
+                'origin': 'oddpart'}
+    if kind == 'twin':
+        # a corpus statement (more often one that applies a model) planned under two or three catalogs
+        d, sql, cat = draw(st.sampled_from(_MODEL_PLANNABLE if draw(st.integers(0, 3)) else _PLANNABLE))
+        worlds = draw(st.lists(st.sampled_from(('base',) + c18_shapes.WORLDS), min_size=2, max_size=3, unique=True))
+        return {'kind': 'twin', 'dialect': d, 'sql': sql, 'catalog': cat, 'worlds': sorted(worlds), 'origin': 'corpus'}
     if kind == 'tree' and draw(st.integers(0, 9)) == 0:
         # a quoted name / string of a corpus statement replaced by a name made of dots
         d = draw(st.sampled_from(corpus.DIALECTS))
@@ -964,6 +1103,32 @@ def law_cases(tier='quick'):
             for i in quoted_positions(spans, ('QUOTE_STRING', 'DQUOTE_STRING')):
                 out.append({'kind': 'tree', 'dialect': d, 'sql': dot_name_of(spans, i), 'how': 'deepcopy' if n % 2 else 'copy',
                             'origin': 'dotname', 'muts': muts})
+    # odd name parts: parts x positions in the name x places of a statement (c18_shapes.odd_part_texts), and the names after a dot
+    # of the corpus statements (quick: one position per statement with `*` and one with a rotating odd part; thorough: all x 3)
+    for n, (d, sql, form, part) in enumerate(c18_shapes.odd_part_texts(tier)):
+        out.append({'kind': 'tree', 'dialect': d, 'sql': sql, 'how': 'deepcopy' if n % 2 else 'copy', 'origin': 'oddpart',
+                    'form': form.replace('{p}', 'P').replace('"', 'q'), 'muts': muts})
+    odd = c18_shapes.ODD_PARTS
+    for d in corpus.DIALECTS:
+        for n, (spans, pos) in enumerate(_DOTSPANS.get(d, [])):
+            for j, i in enumerate(pos):
+                if tier == 'thorough':
+                    parts = ['*', odd[(n + j) % len(odd)], odd[(n + 2 * j + 7) % len(odd)]]
+                elif j == n % len(pos):
+                    parts = ['*', odd[(n + j) % len(odd)]]
+                else:
+                    continue
+                for jj, part in enumerate(dict.fromkeys(parts)):
+                    toks = [src for _, src in spans]
+                    toks[i] = c18_shapes.quote_part(part)
+                    out.append({'kind': 'tree', 'dialect': d, 'sql': ' '.join(toks), 'how': 'deepcopy' if (n + jj) % 2 else 'copy',
+                                'origin': 'oddpart', 'form': 'corpus', 'muts': muts})
+    # twin plans: one statement x the catalogs that differ in what the models are
+    for sql in c18_shapes.twin_texts(tier):
+        for cat in ('mindsdb', 'none'):
+            out.append({'kind': 'twin', 'dialect': 'mindsdb', 'sql': sql, 'catalog': cat, 'worlds': list(c18_shapes.WORLDS), 'origin': 'family'})
+    for (d, sql, cat) in _MODEL_PLANNABLE:
+        out.append({'kind': 'twin', 'dialect': d, 'sql': sql, 'catalog': cat, 'worlds': ['base'] + list(c18_shapes.WORLDS[:3]), 'origin': 'corpus'})
     # left-deep operator chains that parse, print and compare within the recursion limit
     for n, op in DEEP_CHAINS:
         out.append({'kind': 'tree', 'dialect': 'mindsdb', 'sql': 'select * from t where ' + op.join(f'c{i} = {i}' for i in range(n)),
@@ -1013,7 +1178,12 @@ def run_shard(col, k, nshards, tier, seed):
         col.exhaustive_parts.append(f'equality / copy law shapes: {len(law_cases(tier))} cases (white space in quoted tokens: '
                                     f'{len(WS_TEMPLATES)} templates x 3 dialects and the quoted positions of the corpus; all pairs of '
                                     f'{len(COLUMN_DEFS)} column definitions; all pairs of {len(STEP_VALUES)} value spellings in '
-                                    f'{len(STEP_VALUE_TEMPLATES)} predictor shapes; {len(DOT_TEMPLATES)} x {len(DOT_NAMES)} dot-name shapes)')
+                                    f'{len(STEP_VALUE_TEMPLATES)} predictor shapes; {len(DOT_TEMPLATES)} x {len(DOT_NAMES)} dot-name shapes; '
+                                    f'{len(c18_shapes.odd_part_texts(tier))} odd-name-part shapes ({len(c18_shapes.ODD_PARTS)} parts x '
+                                    f'{len(c18_shapes.NAME_FORMS)}+{len(c18_shapes.DQ_FORMS)} name forms x {len(c18_shapes.NAME_PLACES)} places) and '
+                                    f'the names after a dot of {sum(len(v) for v in _DOTSPANS.values())} corpus statements; twin plans: '
+                                    f'{len(c18_shapes.twin_texts(tier))} family statements x 2 default namespaces x {len(c18_shapes.WORLDS)} '
+                                    f'catalogs and the {len(_MODEL_PLANNABLE)} corpus statements that apply a model x 4 catalogs)')
         col.exhaustive_parts.append(f'copy + 4 fixed mutations of all {len(corpus.accepted())} corpus trees; equality laws over the '
                                     f'{len(_PLANNABLE)} (corpus statement, catalog) pairs that plan; qualified-star shapes')
     hyp.explore(col, cases(), judge, N[tier], seed)
